@@ -828,6 +828,7 @@ class Exec:
         for k in keys:
             c = consts[k] if consts and k in consts else fresh("%s_%s" % (base, k.split(":", 1)[1].replace(" ", "").replace("(", "").replace(")", "")[:30]))
             self.loc_by_key(k).set(st, c)
+            st.conds.extend(self.ctx.type_facts(k, c))
             out[k] = c
         return out
 
